@@ -110,7 +110,7 @@ func listDomain(maxLen, maxAlias int) *domain {
 		// new containers derived from l, kept in c
 		out = append(out, Op{K: "copy", T: "l", D: "c"}, Op{K: "add", T: "l", U: "l", D: "c"},
 			Op{K: "addlit", T: "l", V: `[2, "a"]`, D: "c"}, Op{K: "blist", T: "l", D: "c"},
-			Op{K: "bsorted", T: "l", D: "c"}, Op{K: "breversed", T: "l", D: "c"}, Op{K: "bkeys", T: "l", D: "c"})
+			Op{K: "bsorted", T: "l", D: "c"}, Op{K: "breversed", T: "l", D: "c"})
 		if _, ok := m.vars["c"].(mlist); ok {
 			out = append(out, Op{K: "add", T: "l", U: "c", D: "c"}, Op{K: "add", T: "c", U: "l", D: "c"}, Op{K: "copy", T: "c", D: "c"})
 		}
